@@ -14,6 +14,8 @@ transport type unaffected units until use variable wait when while with xnor xor
 RESERVED_2008 = """assume assume_guarantee context cover default fairness force parameter property protected
 release restrict restrict_guarantee sequence strong vmode vprop vunit""".split()
 RESERVED = frozenset(RESERVED_93) | frozenset(RESERVED_2008)
+_RESERVED_93 = frozenset(RESERVED_93)
+_RESERVED_2008_ONLY = frozenset(RESERVED_2008) - _RESERVED_93
 
 
 class VhdlSyntaxError(Exception):
@@ -103,9 +105,13 @@ def lex(text: str):
         if kind == "id":
             raw = m.group()
             low = raw.lower()
-            if low in RESERVED:
+            if low in _RESERVED_93:
                 tok = Tok("kw", low, line, raw)
             else:
+                if low in _RESERVED_2008_ONLY:
+                    # reserved since VHDL-2008 only: a VHDL-93 tool accepts it as an identifier (union policy);
+                    # none of these words is needed as a keyword in the modelled subset
+                    bad_idents.append((raw, "reserved_2008_only", line))
                 if raw[0] == "_" or raw[-1] == "_" or "__" in raw:
                     bad_idents.append((raw, ident_problem(raw), line))
                 tok = Tok("id", low, line, raw)
